@@ -75,6 +75,26 @@ def run(rep):
             multi.append({'multi': [t, t], 'ops': [[0] + o for o in first] + [[1] + o for o in second], 'unchecked_children': True})
             solos.append({'multi': [t], 'ops': [[0] + o for o in first], 'unchecked_children': True})
             solos.append({'multi': [t], 'ops': [[0] + o for o in second], 'unchecked_children': True})
+    # targeted pairs (2): instance A drives the matcher's re-arrangement search into dead ends (the children of a word, then the openers of the
+    # OTHER branches of its choices: mostly rejected), THEN a fresh instance B is given an insertion order that needs a SUCCESSFUL re-arrangement
+    # (a child that opens a branch of a choice comes last): B must do after A what it does alone
+    from . import c12
+    n_pairs2 = 0
+    for c in c12.perm_cases(g, rep.seed, 4, 3 if quick else 10):
+        tree = g['templates'][c['type']]
+        openers = sorted(c12.branch_openers(tree))
+        if not c['perm'] or c['perm'][-1] not in openers:
+            continue
+        others = [o for o in openers if o not in c['perm']][:3]
+        if not others:
+            continue
+        first = [['a', x] for x in c['perm'][:-1]] + [['a', o] for o in others]
+        second = [['a', x] for x in c['perm']] + [['f', 0]]
+        multi.append({'multi': [c['type'], c['type']], 'ops': [[0] + o for o in first] + [[1] + o for o in second]})
+        solos.append({'multi': [c['type']], 'ops': [[0] + o for o in first]})
+        solos.append({'multi': [c['type']], 'ops': [[0] + o for o in second]})
+        n_pairs2 += 1
+    rep.coverage['rearrangement_pairs'] = n_pairs2
     mo = impl.run_cases(multi)
     so = impl.run_cases(solos)
     si = 0
